@@ -208,9 +208,11 @@ fn wait_for_child(
         if overflow_code != 0 {
             #[cfg(naijascript_verif)]
             crate::verif::gate("waiter.kill");
-            terminate_child(child);
             #[cfg(naijascript_verif)]
             crate::verif::cap_event(|| "\"ev\":\"kill\",\"why\":\"overflow\"".to_string());
+            terminate_child(child);
+            #[cfg(naijascript_verif)]
+            crate::verif::cap_event(|| "\"ev\":\"killed\"".to_string());
             return Err(ProcessError::OutputLimitExceeded(stream_from_code(overflow_code)));
         }
 
@@ -228,9 +230,11 @@ fn wait_for_child(
         if start.elapsed() >= timeout {
             #[cfg(naijascript_verif)]
             crate::verif::gate("waiter.kill");
-            terminate_child(child);
             #[cfg(naijascript_verif)]
             crate::verif::cap_event(|| "\"ev\":\"kill\",\"why\":\"timeout\"".to_string());
+            terminate_child(child);
+            #[cfg(naijascript_verif)]
+            crate::verif::cap_event(|| "\"ev\":\"killed\"".to_string());
             return Err(ProcessError::Timeout);
         }
         thread::sleep(sleep_for);
